@@ -157,8 +157,11 @@ class Driver:
             proc.jobs = jobs
         elif kind == 'xtrigger-func':
             self.bus.emit('XTRIG_CALL', sig=ctx.get_signature(),
-                          label=ctx.func_name, vtime=self.vclock.now,
-                          pid=proc.pid)
+                          label=ctx.label,
+                          vtime=getattr(ctx, '_verif_put_vtime',
+                                        self.vclock.now),
+                          started_vtime=self.vclock.now,
+                          intvl=ctx.intvl, pid=proc.pid)
         else:
             self.bus.emit('OTHER_CMD', kind=str(kind), pid=proc.pid)
         return proc
@@ -227,7 +230,7 @@ class Driver:
         nth = len(calls)
         self.world.xtrig_calls.append({'sig': sig, 'vtime': self.vclock.now,
                                        'inc': self.world.incarnation})
-        need = plan.get(ctx.func_name, plan.get('*', 1))
+        need = plan.get(ctx.label, plan.get('*', 1))
         ok = nth + 1 >= need
         return [ok, {'n': nth + 1} if ok else {}]
 
